@@ -197,10 +197,7 @@ def run_case(ctx, i, rng):
             feats = [x for x in FEATURES if rng.random() < 0.7]
             if "undeclared" in feats and common.fenced(me, "eblif-blackbox-not-self-contained") is False:
                 pass
-            fence_conn = common.fenced(me, "eblif-conn-on-bus-bit-renumbers-bus")
-            if fence_conn:
-                ctx.count("fenced:conn-only-on-top-bits")
-            design = emodel.gen_design(rng, feats, conn_top_bits_only=fence_conn)
+            design = emodel.gen_design(rng, feats)
             text = emodel.write(design, rng, style=(i % 5 != 0))
             src = os.path.join(d, "s.eblif")
             with open(src, "w") as fh:
@@ -225,6 +222,10 @@ def run_case(ctx, i, rng):
             if errs:
                 ctx.violation("bundled:reader-output-ill-formed:%s" % errs[0][0], "%s: %s" % (what, errs[0][1]))
                 return
+        if design is not None and emodel.conn_below_top_bit(design) and common.fenced(me, "eblif-conn-on-bus-bit-renumbers-bus"):
+            ctx.count("fenced:no-round-trip-after-conn-below-top-bit")     # the reader's result was still judged against the model
+            ctx.fingerprint(text, True)
+            return
         a = netlist_view(n)
         opts = {"write_eblif_cname": rng.random() < 0.85, "write_blackbox": rng.random() < 0.8}
         f = os.path.join(d, "o.eblif")
